@@ -91,6 +91,7 @@ def run_case(work, case):
         names.update(ns)
         names.add('%s_%d_%d' % (short, major, minor))
     res['strop'] = {n: lang.filter_id(n, 'path') for n in sorted(names)}
+    res['strop_any'] = {n: lang.filter_id(n) for n in sorted(names)}     # coverage statistics only
 
     before = snapshot(sandbox)
     root = build_namespace_tree(parsed, root_dir, spelled, lctx)
